@@ -350,12 +350,20 @@ type solverStats struct {
 
 var stats = &solverStats{wins: map[string]int{}, seconds: map[string]float64{}, calls: map[string]int{}}
 
+// wallFactor: solver budgets are CPU seconds (ulimit -t in a wrapper shell), so that a query that is decided in 10 s on an
+// idle machine is decided on a loaded one as well; the wall-clock limit is a multiple of the budget and only a safety net.
+const wallFactor = 5
+
 func runSolver(ctx context.Context, sp solverSpec, file string, timeoutS int) (status, out string, secs float64) {
 	t0 := time.Now()
-	argv := sp.argv(file, timeoutS)
-	cctx, cancel := context.WithTimeout(ctx, time.Duration(timeoutS+2)*time.Second)
+	argv := sp.argv(file, timeoutS*wallFactor)
+	cctx, cancel := context.WithTimeout(ctx, time.Duration(timeoutS*wallFactor+5)*time.Second)
 	defer cancel()
-	cmd := exec.CommandContext(cctx, argv[0], argv[1:]...)
+	var q []string
+	for _, a := range argv {
+		q = append(q, "'"+strings.ReplaceAll(a, "'", "'\\''")+"'")
+	}
+	cmd := exec.CommandContext(cctx, "/bin/sh", "-c", fmt.Sprintf("ulimit -t %d; exec %s", timeoutS, strings.Join(q, " ")))
 	var ob bytes.Buffer
 	cmd.Stdout = &ob
 	cmd.Stderr = &ob
@@ -454,22 +462,71 @@ func discharge(ob *Obligation, tier string, timeoutS int) {
 		}
 	}
 	if tier == "quick" {
-		// stage 1: z3-new alone with a short budget
-		f := write(solvers[0])
-		st, out, secs := runSolver(context.Background(), solvers[0], f, 3)
-		if st == "unsat" || st == "sat" {
-			res.Status, res.Solver, res.Seconds, res.Detail = st, solvers[0].name, secs, firstLines(out, 3)
-			if st == "unsat" {
-				stats.mu.Lock()
-				stats.wins[solvers[0].name]++
-				stats.mu.Unlock()
+		// stage 1: z3-new with a short budget, (other random seeds follow in stage 1b; its run time on the quantified queries
+		// varies by a factor of ten with the seed and with the names of the symbols: 0.5 s .. 17 s for one and the same
+		// obligation of MessageIntegrity.Check); the first answer wins
+		// seed 0 first, alone (most obligations end here); the other two seeds only for what it left undecided
+		{
+			f := base + ".z3-new.smt2"
+			_ = os.WriteFile(f, []byte(smtFile(ob.Hyps, ob.Goal, "", false, "")), 0o644)
+			st, out, secs := runSolver(context.Background(), solvers[0], f, 3)
+			if st == "unsat" || st == "sat" {
+				res.Status, res.Solver, res.Seconds, res.Detail = st, solvers[0].name, secs, firstLines(out, 3)
+				if st == "unsat" {
+					stats.mu.Lock()
+					stats.wins[solvers[0].name]++
+					stats.mu.Unlock()
+				}
+				return
 			}
-			return
 		}
 	}
 	// stage 2a: the skolemised variant, instances only (see skolem.go) - a ground query, fast when it works
 	if skolemStage(ob, res, base, tier, false) {
 		return
+	}
+	if tier == "quick" {
+		// stage 1b: the two other seeds, for what neither seed 0 nor the instance stage decided
+		type r1 struct {
+			st, out string
+			secs    float64
+		}
+		ctx1, cancel1 := context.WithCancel(context.Background())
+		ch1 := make(chan r1, 2)
+		for _, seed := range []int{2, 5} {
+			seed := seed
+			go func() {
+				opts := ""
+				if seed != 0 {
+					opts = fmt.Sprintf("(set-option :smt.random_seed %d)\n(set-option :sat.random_seed %d)\n", seed, seed)
+				}
+				f := fmt.Sprintf("%s.s%d.smt2", base, seed)
+				if seed == 0 {
+					f = base + ".z3-new.smt2"
+				}
+				_ = os.WriteFile(f, []byte(smtFile(ob.Hyps, ob.Goal, opts, false, "")), 0o644)
+				st, out, secs := runSolver(ctx1, solvers[0], f, 4)
+				ch1 <- r1{st, out, secs}
+			}()
+		}
+		decided := false
+		for i := 0; i < 2; i++ {
+			a := <-ch1
+			if !decided && (a.st == "unsat" || a.st == "sat") {
+				decided = true
+				cancel1()
+				res.Status, res.Solver, res.Seconds, res.Detail = a.st, solvers[0].name, a.secs, firstLines(a.out, 3)
+				if a.st == "unsat" {
+					stats.mu.Lock()
+					stats.wins[solvers[0].name]++
+					stats.mu.Unlock()
+				}
+			}
+		}
+		cancel1()
+		if decided {
+			return
+		}
 	}
 	// stage 2b/2c: the skolemised variant with the consequents of established antecedents, ground first, then with
 	// the quantified hypotheses kept
